@@ -84,6 +84,29 @@ def decode(v, enums):
         return {decode(a, enums): decode(b, enums) for a, b in v[1]}
     if k == "enum":
         return enum_class(v[1], enums)[v[2]]
+    if k == "obj":                      # a Python instance of a registered type: ["obj", kind, text]
+        import datetime
+        import decimal
+        import pathlib
+        import uuid
+
+        if v[1] == "timedelta":
+            return datetime.timedelta(seconds=int(v[2]))
+        if v[1] == "complex":
+            return complex(v[2])
+        if v[1] == "decimal":
+            return decimal.Decimal(v[2])
+        if v[1] == "uuid":
+            return uuid.UUID(v[2])
+        if v[1] == "range":
+            return range(*[int(x) for x in v[2].split(",")])
+        if v[1] == "pathlib":
+            return pathlib.Path(v[2])
+    if k == "lazy":                     # lazy_instance default: ["lazy", class name, [[param, V], ...]]
+        import c10_classes
+        from jsonargparse import lazy_instance
+
+        return lazy_instance(getattr(c10_classes, v[1]), **{a: decode(b, enums) for a, b in v[2]})
     raise ValueError("cannot decode %r" % (v,))
 
 
@@ -126,6 +149,9 @@ def encode(v, seen=False):
         return ["dict", [[["str", a], encode(b)] for a, b in v.__dict__.items()]]
     if isinstance(v, BaseException):
         return ["opaque", "exc", ""]
+    if type(v).__name__ == "Decimal" and type(v).__module__ in ("decimal", "_decimal", "_pydecimal"):
+        # Decimal('1.50') == Decimal('1.5'): the value, not the exponent of its representation
+        return ["opaque", "Decimal", "nan" if v.is_nan() else format(v.normalize(), "f") if v.is_finite() else str(v)]
     if hasattr(v, "relative") and hasattr(v, "cwd") and callable(v):          # jsonargparse Path
         return ["opaque", type(v).__name__, "%s -> %s" % (v.relative, v())]
     return ["opaque", type(v).__name__, repr(v)]
@@ -189,9 +215,21 @@ def build_type(t, enums, scratch):
     if k == "data":
         return DATA[t[1]]
     if k == "sub":
+        if len(t) > 1:
+            import c10_classes
+
+            return getattr(c10_classes, t[1])
         import calendar
 
         return calendar.Calendar
+    if k == "decimal":
+        import decimal
+
+        return decimal.Decimal
+    if k == "uuid":
+        import uuid
+
+        return uuid.UUID
     raise ValueError("unknown type %r" % (t,))
 
 
@@ -267,6 +305,32 @@ def attempt(fn, keys):
         return ["crashed", "snapshot %s: %s" % (type(ex).__name__, str(ex)[:200])], None
 
 
+def dump_leg(p, cfg, keys):
+    """dump(cfg) -> parse_string -> the configuration read back, and its dump again"""
+    res = {"reparsed": ["crashed", "not run"], "text1": None, "text2": None}
+    try:
+        with contextlib.redirect_stderr(io.StringIO()):
+            res["text1"] = p.dump(cfg.clone())
+    except BaseException as ex:  # noqa: B902
+        res["reparsed"] = ["crashed", "dump: %s: %s" % (type(ex).__name__, str(ex)[:200])]
+        return res
+    box = {}
+
+    def again():
+        box["cfg"] = p.parse_string(res["text1"])
+        return box["cfg"]
+
+    res["reparsed"] = attempt(again, keys)[0]
+    if "cfg" in box:
+        try:
+            with contextlib.redirect_stderr(io.StringIO()):
+                res["text2"] = p.dump(box["cfg"])
+        except BaseException as ex:  # noqa: B902
+            res["text2"] = None
+            res["why2"] = "dump again: %s: %s" % (type(ex).__name__, str(ex)[:200])
+    return res
+
+
 def run_case(case, scratch):
     enums = {}
     p = ArgumentParser(exit_on_error=False)
@@ -282,6 +346,8 @@ def run_case(case, scratch):
             seen["defaults"].append(encode(kw["default"], True))
         else:
             seen["defaults"].append(["none"])
+        if d.get("default", ["none"])[0] == "lazy":
+            seen["defaults"][-1] = ["none"]
         p.add_argument("--" + d["key"], type=ty, **kw)
         keys.append(d["key"])
     if case["kind"] == "ns":
@@ -308,6 +374,8 @@ def run_case(case, scratch):
             obs["why"] = "%s: %s" % (type(ex).__name__, str(ex)[:200])
         obs["again"].append(attempt(lambda: p.parse_object(cfg.clone()), keys)[0])
         obs["again"].append(attempt(lambda: p.parse_object(cfg.clone().as_dict()), keys)[0])
+        if case["kind"] == "x":
+            obs["dump"] = dump_leg(p, cfg, keys)
     if case["kind"] == "ns":
         obs["oracle"] = make_oracle(seeds)
         obs["seen"] = seen
